@@ -186,6 +186,14 @@ def mergeSegs (log : List (DelOp α)) (target : Nat) (newId : Nat) (srcs : List 
   | [] => none
   | first :: _ => if docs.isEmpty then none else some { id := newId, docs := docs, cursor := first.cursor }
 
+/-- `SegmentUpdater::end_merge`: "deletes and commits could have happened as we were merging":
+if the next delete of the merged segment's cursor is older than the last commit, advance it to
+that commit -/
+def catchUp (log : List (DelOp α)) (committedOpstamp : Nat) (sg : Seg α) : Seg α :=
+  match log[sg.cursor]? with
+  | some del => if del.op < committedOpstamp then advance log committedOpstamp sg else sg
+  | none => sg
+
 /-- `SegmentManager::end_merge` on one register -/
 def replaceIn (reg : List (Seg α)) (ids : List Nat) (res : Option (Seg α)) : List (Seg α) :=
   reg.filter (fun sg => !ids.contains sg.id) ++ res.toList
@@ -283,7 +291,9 @@ def step (s : WState α) : Event α → Option (WState α × Nat)
   | .tick => some ({ s with stamper := s.stamper + 1 }, 0)
   | .flush => some ({ s with flushed := s.log.length }, 0)
   | .mergeStart ids policy =>
-    if ids.isEmpty then none else
+    -- `segment_ids` is required to be non-empty; a segment is listed once (the policy never
+    -- proposes duplicates; `IndexWriter::merge(&[a, a])` is outside the model)
+    if ids.isEmpty || !decide ids.Nodup then none else
     if idsIn ids s.uncommitted && policy then
       -- consider_merge_options: target = a fresh stamp
       let srcs := ids.filterMap (lookup s.uncommitted)
@@ -301,10 +311,7 @@ def step (s : WState α) : Event α → Option (WState α × Nat)
     | some m =>
       let s0 := { s with merges := s.merges.eraseIdx k }
       -- catch up with the deletes committed while the merge was running
-      let res := m.result.map (fun sg =>
-        match s.log[sg.cursor]? with
-        | some del => if del.op < s.metas.opstamp then advance s.log s.metas.opstamp sg else sg
-        | none => sg)
+      let res := m.result.map (catchUp s.log s.metas.opstamp)
       if idsIn m.ids s.uncommitted then
         some ({ s0 with uncommitted := replaceIn s.uncommitted m.ids res }, 0)
       else if idsIn m.ids s.committed then
